@@ -273,7 +273,7 @@ def gen_plan(seed: int, mode: str, scale: int = 1):
     projects = []
     nproj = (cfg.randint(2, 5) if mode == "c09" else cfg.randint(1, 3)) + (scale - 1)
     if mode == "c09":
-        mix = [("mutated", cfg.randint(2, 8)), ("template", cfg.randint(1, 6)), ("soup", cfg.randint(0, 3)), ("corpus", 1), ("generated", cfg.randint(0, 2))]
+        mix = [("mutated", cfg.randint(2, 8)), ("template", cfg.randint(1, 6)), ("soup", cfg.randint(0, 3)), ("corpus", 1), ("generated", cfg.randint(1, 4))]
     else:
         mix = [("corpus", cfg.randint(1, 5)), ("generated", cfg.randint(1, 5)), ("mutated", cfg.randint(0, 2)), ("template", cfg.randint(0, 1))]
     same_names = cfg.chance(0.5)
@@ -535,12 +535,35 @@ def gen_plan(seed: int, mode: str, scale: int = 1):
         )
         ops.append({"op": "cli", "argv": argv})
 
+    def sweep_task(p: Project):
+        """Every language and mode for one project (the 'all accepted schemas x all target
+        languages' half of C09): plain parse -> c, go, py; traditional parse -> c -O under the
+        three --endian settings, go -O, c -O -F."""
+        steps = []
+        sid_a = state["sid"]
+        sid_b = state["sid"] + 1
+        state["sid"] += 2
+        main = p.root + "/" + p.main
+        out = p.root + "/out"
+        steps.append(lambda: ops.append({"op": "parse", "sid": sid_a, "path": main, "trad": False}))
+        for lang in ("c", "go", "py"):
+            steps.append(lambda lang=lang: ops.append({"op": "render", "sid": sid_a, "lang": lang, "outdir": out, "outdir_abs": out, "opt": False, "filter": None, "endian": "both"}))
+        steps.append(lambda: ops.append({"op": "lint", "sid": sid_a}))
+        steps.append(lambda: ops.append({"op": "parse", "sid": sid_b, "path": main, "trad": True}))
+        ms = p.messages()
+        for lang, endian, filt in (("c", "both", None), ("c", "little", None), ("c", "big", None), ("go", "both", None), ("c", "both", ms[:1] or None), ("go", "big", ms[-1:] or None)):
+            steps.append(lambda lang=lang, endian=endian, filt=filt: ops.append({"op": "render", "sid": sid_b, "lang": lang, "outdir": out, "outdir_abs": out, "opt": True, "filter": filt, "endian": endian}))
+        return steps
+
     # build the task list, then let the seeded scheduler interleave the steps
     ntasks = (cfg.randint(4, 10) if mode == "c09" else cfg.randint(3, 8)) * scale
     tasks = []
     for t in range(ntasks):
         p = rng.choice(projects)
         tasks.append(api_task(p) if rng.chance(0.6) else cli_task(p))
+    if mode == "c09" and cfg.chance(0.6):
+        cands = [p for p in projects if p.origin in ("generated",) or p.origin.startswith("corpus:")] or projects
+        tasks.append(sweep_task(rng.choice(cands)))
     p_restart = cfg.choice([0.0, 0.03, 0.08])
     p_jitter = cfg.choice([0.0, 0.1, 0.25])
     p_edit = cfg.choice([0.0, 0.05, 0.12])
